@@ -313,6 +313,8 @@ def run(R):
         # SNMPv1 ends a walk with an ERROR response (noSuchName): that response, too,
         # must pass the community / version / request-id checks before it ends anything
         VIA[0] = False
+        swapped_replies(R)
+        temporary_credentials(R)
         for op in ("walk", "multiwalk", "table"):
             for fault, delta in (("community", 1), ("community", -1), ("version", 1), ("version", -1), ("rid", 1), ("rid", ("abs", 0))):
                 for k in (1, 2):
@@ -320,7 +322,133 @@ def run(R):
     budget.MONITOR.off()
 
 
+def temporary_credentials(R):
+    """One community client, a long series of `with reconfigure(credentials=V2C(new))`
+    blocks with short-lived credential objects (freed after each block, so a later one
+    may well live at the same address): the echo of the CURRENT community is accepted,
+    a response carrying the previous block's community is refused."""
+    import gc
+
+    from puresnmp import Client
+    from puresnmp.credentials import V1, V2C
+
+    for version, cls in ((0, V1), (1, V2C)):
+        mode = {"answer": "echo"}
+        seen = []
+
+        def responder(data):
+            m = ber.decode_message(data)
+            seen.append(m["community"])
+            comm = m["community"] if mode["answer"] == "echo" else mode["answer"]
+            pdu = m["pdu"]
+            resp = {"type": ber.PDU_RESPONSE, "request_id": pdu["request_id"], "error_status": 0, "error_index": 0, "varbinds": [(o, ("int", 7)) for o, _ in pdu["varbinds"]]}
+            return ber.enc_community_message(m["version"], comm, resp)
+
+        seam = rig.Seam(responder)
+        client = Client("192.0.2.1", cls("base"), sender=seam)
+        prev = b"base"
+        for j in range(40):
+            name = "c%d-%s" % (j, "x" * (j % 5))
+            case = {"level": "v1" if version == 0 else "v2c", "op": "get", "fault": "temporary-credentials", "k": j, "delta": None, "step_seed": None, "prime": True}
+            gc.collect()
+            with client.reconfigure(credentials=cls(name)):
+                mode["answer"] = "echo"
+                r1 = rig.outcome(lambda: drive(client.get(OID((1, 3, 6, 1, 2, 1, 1, 1, 0)))))
+                mode["answer"] = prev
+                r2 = rig.outcome(lambda: drive(client.get(OID((1, 3, 6, 1, 2, 1, 1, 1, 0)))))
+            R.case(("c07-tempcred", version, j), True)
+            if r1[0] != "ok":
+                R.violation(case, "block %d (community %r): the conformant echo was refused: %r" % (j, name, r1[1]), None)
+                return
+            if r2[0] == "ok":
+                R.violation(case, "block %d (community %r): a response carrying the previous community %r was accepted" % (j, name, prev), None)
+                return
+            prev = name.encode()
+            R.mon["temporary_credential_blocks"] += 1
+
+
+def swapped_replies(R):
+    """Two requests in flight on ONE client with different request ids; a multiplexing
+    sender hands each the other's (perfectly valid) response: neither may return data."""
+    import asyncio
+
+    from puresnmp import Client
+
+    a, b = (1, 3, 6, 1, 2, 1, 1, 1, 0), (1, 3, 6, 1, 2, 1, 1, 5, 0)
+    db = dict(DB)
+    db[a], db[b] = ("str", b"value-A"), ("str", b"value-B")
+    for level in ("v1", "v2c", "v3-noauth", "v3-md5", "v3-sha1-priv"):
+        for ops in (("get", "get"), ("get", "getnext"), ("set", "get")):
+            env.CLOCK.freeze(1_700_000_000.0)
+            w = World(level, db)
+            w.prime()
+            env.CLOCK.stepping(lambda: 1.0)  # every read advances: the two ids differ
+            pending = []
+
+            async def parking(endpoint, packet, timeout=None, retries=None, loop=None):
+                fut = asyncio.get_running_loop().create_future()
+                pending.append((bytes(packet), fut))
+                return await fut
+
+            client = Client("192.0.2.1", w.creds, sender=parking)
+            client.mpm = w.client.mpm  # the primed message-processing state (discovery done)
+
+            async def op(kind, oid):
+                try:
+                    if kind == "get":
+                        return ("ok", rig.to_tuple(await client.get(OID(oid))))
+                    if kind == "getnext":
+                        vb = await client.getnext(OID(oid))
+                        return ("ok", (rig.oid_t(vb.oid), rig.to_tuple(vb.value)))
+                    return ("ok", rig.to_tuple(await client.set(OID(oid), rig.from_tuple(("str", b"written")))))
+                except Exception as exc:  # noqa: BLE001
+                    return ("exc", exc)
+
+            async def main():
+                t1 = asyncio.ensure_future(op(ops[0], a))
+                t2 = asyncio.ensure_future(op(ops[1], b))
+                for _ in range(10):
+                    await asyncio.sleep(0)
+                if len(pending) != 2:
+                    for _, f in pending:
+                        f.cancel()
+                    return None
+                (p1, f1), (p2, f2) = pending
+                r1, r2 = w.agent.handle(p1), w.agent.handle(p2)
+                ids = []
+                for raw in (p1, p2):
+                    m = ber.decode_message(raw)
+                    ids.append((m.get("pdu") or (m.get("scoped") or {}).get("pdu") or {}).get("request_id"))
+                f1.set_result(r2)  # swapped
+                f2.set_result(r1)
+                return ids, await t1, await t2
+
+            out = rig._run(main())
+            env.CLOCK.freeze(1_700_000_000.0)
+            case = {"level": level, "op": "+".join(ops), "fault": "swapped-replies", "k": 0, "delta": None, "step_seed": None, "prime": True}
+            R.case(("c07-swap", level, ops), out is not None)
+            if out is None:
+                R.mon["swap_setup_incomplete"] += 1
+                continue
+            ids, o1, o2 = out
+            if ids[0] is not None and ids[0] == ids[1]:
+                R.mon["swap_same_ids"] += 1
+                continue
+            for who, o in (("first", o1), ("second", o2)):
+                if o[0] == "ok":
+                    R.violation(case, "two requests in flight (ids %r): the %s one was answered with the OTHER request's response and returned %r" % (ids, who, o[1]), None)
+                    break
+            else:
+                R.mon["swapped_replies_refused"] += 1
+
+
 def replay(R, v):
+    if v["case"].get("fault") == "swapped-replies":
+        swapped_replies(R)
+        return
+    if v["case"].get("fault") == "temporary-credentials":
+        temporary_credentials(R)
+        return
     c = v["case"]
     run_case(R, c["level"], c["op"], c["fault"], c["k"], c["delta"], c["step_seed"], c["prime"], c.get("err"), c.get("base", 1_700_000_000.0), via=c.get("via") or False)
     budget.MONITOR.off()
